@@ -575,8 +575,9 @@ def prepare(ctx):
     """Translator tie (see gen_tie.py): the source of this slice is re-translated to Lean on every run
     (harness/artv/dtrans.py) and proved equal to the model the property theorems are about"""
     from .gen_tie import gen_prepare, extra_theorems
-    from .. import dtrans
-    gen_prepare(ctx, extra_theorems("dtrans") + ['dual_match_tracking'], dtrans.COVERS)
+    from .. import dtrans, wtrans
+    whole = [t for t in extra_theorems("wtrans") if "dual" in t.lower()]
+    gen_prepare(ctx, extra_theorems("dtrans") + whole + ['dual_match_tracking'], dtrans.COVERS + "; " + wtrans.COVERS)
 
 def run(ctx):
     N = ctx.scale(1000, 12000)
